@@ -421,6 +421,12 @@ class JacMat:
     def __init__(self):
         self.stores = []     # (row index, col index, value)
 
+    def __rmul__(self, s):
+        s = S.lift(s)
+        return Op({}, s.const() if s.is_const() else 0, -1)
+
+    __mul__ = __rmul__
+
 
 class ASelf:
     def __init__(self, cls):
@@ -481,6 +487,7 @@ class AffInterp:
         self.selfobj = ASelf(cls)
         self.depth = 0
         self.inline_jacobian = False
+        self.effects = None      # when a dict: {'written': set, 'carried': [(attr, where)]}
 
     # ------------------------------------------------------------------ construction
     def construct(self):
@@ -618,6 +625,9 @@ class AffInterp:
 
     def setattr(self, o, name, v, func, node):
         if isinstance(o, ASelf):
+            if self.effects is not None:
+                self.effects["written"].add(name)
+                self.effects["writes"].append((name, "%s:%d" % (func.qualname, node.lineno)))
             o.attrs[name] = v
         elif isinstance(o, AField) and name in ("time", "it", "data"):
             setattr(o, name, v)
@@ -733,6 +743,8 @@ class AffInterp:
     def getattr(self, o, a, func, node):
         if isinstance(o, ASelf):
             if a in o.attrs:
+                if self.effects is not None and a not in self.effects["written"]:
+                    self.effects["carried"].append((a, "%s:%d" % (func.qualname, node.lineno)))
                 return o.attrs[a]
             c, expr = self.p.class_attr(o.cls, a)
             if expr is not None:
@@ -835,11 +847,19 @@ class AffInterp:
         raise AnalysisError("unsupported unary operator")
 
     def e_BoolOp(self, node, env, func):
-        vals = [self.eval(v, env, func) for v in node.values]
-        if any(isinstance(v, Cond) for v in vals):
-            raise AnalysisError("%s:%d symbolic condition reached in abstract execution" % (func.qualname, node.lineno))
-        ts = [self.truth(v, node, func) for v in vals]
-        return all(ts) if isinstance(node.op, ast.And) else any(ts)
+        # short-circuit evaluation, as Python does
+        is_and = isinstance(node.op, ast.And)
+        res = is_and
+        for vn in node.values:
+            v = self.eval(vn, env, func)
+            if isinstance(v, Cond):
+                raise AnalysisError("%s:%d symbolic condition reached in abstract execution" % (func.qualname, node.lineno))
+            t = self.truth(v, node, func)
+            if is_and and not t:
+                return False
+            if not is_and and t:
+                return True
+        return res
 
     def e_Compare(self, node, env, func):
         if len(node.ops) != 1:
@@ -943,6 +963,8 @@ class AffInterp:
             if base == "hasattr":
                 o, a = args
                 if isinstance(o, ASelf):
+                    if self.effects is not None and a not in self.effects["written"] and self.p.class_attr(o.cls, a)[1] is None:
+                        self.effects["carried"].append((a, "%s:%d (hasattr)" % (func.qualname, node.lineno)))
                     return a in o.attrs or self.p.class_attr(o.cls, a)[1] is not None
                 raise AnalysisError("hasattr on non-self")
             if base == "len":
@@ -1091,3 +1113,24 @@ def run_jacobian(project, cls):
     ai.call(func, [ai.selfobj, f], {})
     jm = ai.selfobj.attrs.get("jacobian")
     return ai, f, jm
+
+
+def step_effects(project, cls, islinear, nsteps=3):
+    """attributes of the solver object that a step reads before writing (state carried in
+    from before the call) and attributes it writes, for consecutive steps 1..nsteps on one
+    object.  calc_jacobian is executed for real (both sides of its cache guard are reached
+    through islinear / step number)."""
+    ai = AffInterp(project, cls)
+    ai.construct()
+    ai.inline_jacobian = True
+    config = set(ai.selfobj.attrs)
+    out = []
+    for n in range(nsteps):
+        f = AField.initial()
+        f.model.islinear = islinear
+        ai.effects = {"written": set(), "carried": [], "writes": []}
+        ai.step(f, dt_arg())
+        eff = ai.effects
+        ai.effects = None
+        out.append(eff)
+    return config, out
